@@ -37,7 +37,7 @@ import gen_cache
 from engine import Op
 
 PROP = "C15"
-LEAN_MODULES = ["IsoDT.Props.C15"]
+LEAN_MODULES = ["IsoDT.Props.C15", "IsoDT.Props.C15algo"]
 REQUIRED_THEOREMS = ["IsoDT.Props.C15." + n for n in (
     "C15_inv", "C15_fresh", "C15_discipline", "C15_modes", "C15_modes_tables", "C15_modes_spec",
     "C15_unkeyed_independent")]
